@@ -488,8 +488,39 @@ def d7(chk, prog):
                                   # rows nested inside a long one: the last row (by start) ends before the long row does, ends are not monotone
                                   ("nested rows", [("a", 0, 100), ("a", 10, 20), ("a", 30, 35), ("c", 0, 50), ("c", 5, 15)],
                                    # (several query ranges start at 0, "no lower bound" to the code: each starts from all rows again)
-                                   [("a", 0, 5), ("a", 0, 15), ("a", 0, 200), ("a", 12, 18), ("a", 33, 99), ("a", 40, 60), ("a", 100, 120), ("c", 0, 3), ("c", 0, 60), ("c", 20, 30), ("c", 50, 60)])):
+                                   [("a", 0, 5), ("a", 0, 15), ("a", 0, 200), ("a", 12, 18), ("a", 33, 99), ("a", 40, 60), ("a", 100, 120), ("c", 0, 3), ("c", 0, 60), ("c", 20, 30), ("c", 50, 60)]),
+                                  # one chromosome on both sides (the shortcut of the chromosome pairing), and a queried table without any row
+                                  ("one chromosome on both sides", [("a", 0, 10), ("a", 10, 30), ("a", 25, 40)], [("a", 5, 12), ("a", 28, 55), ("a", 70, 80)]),
+                                  ("empty table, queries on one chromosome", [], [("a", 5, 12), ("a", 28, 55), ("a", 70, 80)]),
+                                  ("empty table, queries on two chromosomes", [], [("a", 5, 12), ("b", 28, 55), ("a", 70, 80)])):
         _d7_layout(chk, prog, layout, lits, queries)
+    d7b(chk, prog)
+
+
+def d7b(chk, prog):
+    """in_range / in_ranges on a literal table: the rows of the named chromosome the range selects -- none, as an empty table, for a chromosome the table has no row on"""
+    fi = prog.fn("skgenome.gary.GenomicArray.in_range")
+    tb = Table(chk, "one-per-query", "in_range / in_ranges on a literal table (chromosomes a, c; nested rows): present chromosome, absent chromosome, open ends; three modes", fi.loc(), fi.qn)
+    lits = [("a", 0, 100), ("a", 10, 20), ("a", 30, 35), ("c", 0, 50), ("c", 5, 15)]
+    for chrom_, lo, hi, mode in itertools.product(["a", "c", "b"], [None, 12], [None, 33], ["outer", "inner", "trim"]):
+        W.reset()
+        df = DF({"chromosome": Vec([r[0] for r in lits], aligned=True), "start": Vec([r[1] for r in lits], aligned=True), "end": Vec([r[2] for r in lits], aligned=True),
+                 "id": Vec([f"t{i}" for i in range(len(lits))], aligned=True)}, len(lits), "any")
+        df.exact, df.labels = True, [7, 3, 9, 11, 2]
+        g = GA("GenomicArray", df, len(lits), {})
+        it = Interp(prog)
+        out = tb.guard(lambda: it.run_method(g, "in_range", [chrom_, lo, hi, mode]), f"in_range({chrom_!r}, {lo}, {hi}, {mode})")
+        if out is None:
+            continue
+        if mode == "inner":
+            want = [(f"t{i}", r[1], r[2]) for i, r in enumerate(lits) if r[0] == chrom_ and (lo is None or r[1] >= lo) and (hi is None or r[2] <= hi)]
+        else:
+            want = [(f"t{i}", (max(r[1], lo) if (mode == "trim" and lo) else r[1]), (min(r[2], hi) if (mode == "trim" and hi) else r[2]))
+                    for i, r in enumerate(lits) if r[0] == chrom_ and (lo is None or r[2] > lo) and (hi is None or r[1] < hi)]
+        c = out.data.cols if isinstance(out, GA) else {}
+        got = [(a, int(T(b).cval()), int(T(e_).cval())) for a, b, e_ in zip(c["id"].v, c["start"].v, c["end"].v)] if all(k in c for k in ("id", "start", "end")) else repr(out)[:60]
+        tb.cell(got == want, dict(chromosome=chrom_, start=lo, end=hi, mode=mode, got=got, want=want))
+    tb.done("in_range does not return exactly the named chromosome's rows the range selects (an empty table for a chromosome without rows)")
 
 
 def _d7_layout(chk, prog, layout, lits, queries):
